@@ -253,6 +253,31 @@ def run(ctx, rep):
                    "overridden by a default one would be exported", pa.file, t["l"])
         rep.floor("visibility-merge", "handle_non_default_visibility calls", n_g, 2)
 
+    # ---- STV_* -> Visibility: internal is at least as restrictive as hidden -----------------------------------------------------------
+    # Property text: "Hidden or internal symbols ... are never exported". Every export decision above works on libwild's Visibility /
+    # Symbol::is_hidden, so the conversion from st_other must send STV_INTERNAL (1) and STV_HIDDEN (2) to Hidden
+    # (genuine defect, fixed in /repo fbece2d: STV_INTERNAL became Default and the symbol was listed in .dynsym).
+    rep.rule("visibility-conversion", "convert_elf_visibility maps st_other&3 = 0,1,2,3 to Default,Hidden,Hidden,Protected and Symbol::is_hidden / is_interposable of an ELF "
+             "symbol agree with it (evaluated over the MIR of each function for all four values)")
+    want = {0: "Default", 1: "Hidden", 2: "Hidden", 3: "Protected"}
+    cv = F.body("libwild::elf::convert_elf_visibility")
+    if cv is None:
+        rep.lost("visibility-conversion", "elf::convert_elf_visibility")
+    else:
+        for v, w in want.items():
+            got = _classify_u8(cv, ("param", 1), v)
+            rep.ob("visibility-conversion", f"convert:{v}", got is not None and str(got).endswith(w), f"st_visibility {v} -> {got} (expected {w})", cv.file, cv.line)
+    for fn, truth in (("libwild::elf::is_hidden", {0: 0, 1: 1, 2: 1, 3: 0}), ("libwild::elf::is_interposable", {0: 1, 1: 0, 2: 0, 3: 0})):
+        hb = F.body(fn)
+        if hb is None:
+            rep.lost("visibility-conversion", fn)
+            continue
+        for v, w in truth.items():
+            got = _classify_u8(hb, ("call", "st_visibility"), v)
+            rep.ob("visibility-conversion", f"{fn.split('::')[-1]}:{v}", got == w, f"{fn.split('::')[-1]}(st_visibility={v}) = {got} (expected {w})", hb.file, hb.line)
+    users = [b for b, bi, t in P.callers_of(lambda k: k == "libwild::elf::convert_elf_visibility")]
+    rep.floor("visibility-conversion", "users of convert_elf_visibility (ELF symbols, LTO plugin symbols)", len(users), 1)
+
     # ---- imports: references from shared objects are looked up under the right version ----------------------------------
     # A symbol the executable defines must be exported when a shared object references it. resolve_symbols visits an object's symbols in
     # chunks of MAX_SYMBOLS_PER_WORK_ITEM and enumerates each chunk from zero; the version of a shared object's symbol is found by its
@@ -308,3 +333,64 @@ def run(ctx, rep):
         rep.ob("entry-fields", f"{fn}:st_info", stores.get(".st_info", "").startswith("st_info(sym"), f"st_info <- {stores.get('.st_info')} (type and binding of the input symbol)", b.file, b.line)
         rep.ob("entry-fields", f"{fn}:st_other", stores.get(".st_other", "").startswith("st_other(sym"), f"st_other <- {stores.get('.st_other')} (visibility of the input symbol)", b.file, b.line)
     rep.assume("final values, sizes, types and the order of symbol-table entries are runtime quantities: not decided")
+
+
+def _classify_u8(body, source, v, max_steps=200):
+    """Evaluate a loop-free MIR body whose outcome depends only on one u8 (a parameter or the result of a call whose name ends with
+    source[1]) for the concrete value v: returns the constant / enum variant stored in _0, or None if anything else is needed."""
+    env = {}
+    if source[0] == "param":
+        env[source[1]] = v
+
+    def val(op):
+        if op[0] == "k":
+            return op[1].get("val")
+        if op[0] in ("c", "m") and not op[1][1]:
+            return env.get(op[1][0])
+        return None
+    bi = 0
+    for _ in range(max_steps):
+        blk = body.blocks[bi]
+        for s in blk["s"]:
+            if s["k"] != "assign" or s["p"][1]:
+                continue
+            rv = s["rv"]
+            r = None
+            if rv["k"] in ("use", "cast"):
+                r = val(rv["a"])
+            elif rv["k"] == "bin":
+                a, b = val(rv["a"]), val(rv["b"])
+                if a is not None and b is not None:
+                    r = {"Eq": int(a == b), "Ne": int(a != b), "BitAnd": a & b, "BitOr": a | b, "Lt": int(a < b), "Le": int(a <= b), "Gt": int(a > b), "Ge": int(a >= b)}.get(rv["op"])
+            elif rv["k"] == "un" and rv["op"] == "Not":
+                a = val(rv["a"])
+                r = None if a is None else int(not a)
+            elif rv["k"] == "agg" and rv["ak"] == "adt":
+                r = rv.get("variant")
+            elif rv["k"] == "discr":
+                r = env.get(rv["p"][0])
+            env[s["p"][0]] = r
+        t = blk["t"]
+        if t["k"] == "goto":
+            bi = t["to"]
+        elif t["k"] == "return":
+            return env.get(0)
+        elif t["k"] == "switch":
+            d = val(t["d"])
+            if d is None:
+                return None
+            if isinstance(d, str):
+                return None
+            bi = next((to for c, to in t["arms"] if c == d), t["else"])
+        elif t["k"] == "call":
+            ck = callee_key(t["f"]) or ""
+            if source[0] == "call" and ck.endswith(source[1]) and not t["dest"][1]:
+                env[t["dest"][0]] = v
+            else:
+                env[t["dest"][0]] = None
+            if t.get("to") is None:
+                return None
+            bi = t["to"]
+        else:
+            return None
+    return None
